@@ -38,6 +38,10 @@ Section Spec.
   Definition sp_rw_sample (n : Z) (f0 f_max L s xi b : K) (i : Z) : cpx K :=
     let a := sp_rw_Z1 f0 L s xi b * l_sq E (fz i * sp_delta n f0 f_max) in (a, - a).
 
+  (** the square of Z1: what the relational validator of the correspondence compares squares with *)
+  Definition sp_rw_k (f0 L s xi b : K) : K :=
+    l_Z0 E * (1 + xi) * f0 / s / l_pi E / l_c E * (L / two / b) * (L / two / b).
+
   (** collimator *)
   Definition sp_coll_Z (outer inner : K) : cpx K := (l_Z0 E / l_pi E * l_lg E (outer / inner), 0).
 
@@ -89,7 +93,7 @@ Section Spec.
 End Spec.
 
 Arguments sp_delta {K}. Arguments sp_fs_Z0 {K}. Arguments sp_fs_sample {K}. Arguments sp_rw_Z1 {K}.
-Arguments sp_rw_sample {K}. Arguments sp_coll_Z {K}. Arguments sp_fs_vec {K}. Arguments sp_rw_vec {K}.
+Arguments sp_rw_sample {K}. Arguments sp_rw_k {K}. Arguments sp_coll_Z {K}. Arguments sp_fs_vec {K}. Arguments sp_rw_vec {K}.
 Arguments sp_coll_vec {K}. Arguments sp_f0 {K}. Arguments sp_radius {K}. Arguments g_sel_csr {K}.
 Arguments g_sel_pp {K}. Arguments g_sel_fs {K}. Arguments g_sel_rw {K}. Arguments g_sel_coll {K}.
 Arguments g_any_selected {K}. Arguments g_parts {K}. Arguments sp_factory_with {K}. Arguments sp_factory {K}.
